@@ -7,6 +7,7 @@ from typing import Optional, Tuple
 from fdlstatic import cfg as cfg_lib
 from fdlstatic.ctx import Ctx, kwarg
 from fdlstatic.model import AnalysisError, unparse, walk_function
+from fdlstatic import roles
 from fdlstatic.report import RuleSet
 from fdlstatic.rules import c08
 
@@ -62,8 +63,9 @@ def deepcopy_memo_rules(ctx: Ctx, rs: RuleSet, rule: str):
   seeds = [n for n in walk_function(df.node) if isinstance(n, ast.Assign) and
            any(isinstance(t, ast.Subscript) and unparse(t.value) == memo
                for t in n.targets)]
-  ok_seed = all(unparse(s.value).endswith('.signature') and
-                unparse(s.targets[0].slice) == f'id({unparse(s.value)})'
+  ok_seed = all(unparse(roles.deref_deep(df, s.value)).endswith('.signature')
+                and unparse(roles.deref_deep(df, s.targets[0].slice)) == (
+                    f'id({unparse(roles.deref_deep(df, s.value))})')
                 for s in seeds) and len(seeds) <= 1
   rebound = [n for n in walk_function(df.node) if isinstance(
       n, (ast.Assign, ast.AugAssign, ast.AnnAssign)) and any(
@@ -301,16 +303,17 @@ def run(ctx: Ctx, rs: RuleSet, tier: str):
     rets = [n for n in walk_function(f.node) if isinstance(n, ast.Return)]
     ok = bool(rets)
     for r in rets:
-      c = r.value
+      c = roles.deref(f, r.value) if r.value is not None else None
+      fl = roles.deref(f, c.args[0].value) if isinstance(
+          c, ast.Call) and len(c.args) == 1 and isinstance(
+              c.args[0], ast.Starred) else None
       good = (isinstance(c, ast.Call) and isinstance(c.func, ast.Attribute) and
-              c.func.attr == '__unflatten__' and len(c.args) == 1 and
-              isinstance(c.args[0], ast.Starred) and isinstance(
-                  c.args[0].value, ast.Call) and isinstance(
-                      c.args[0].value.func, ast.Attribute) and
-              c.args[0].value.func.attr == '__flatten__' and
-              not c.args[0].value.args and not c.keywords)
+              c.func.attr == '__unflatten__' and isinstance(
+                  fl, ast.Call) and isinstance(fl.func, ast.Attribute) and
+              fl.func.attr == '__flatten__' and
+              not fl.args and not c.keywords)
       if good:
-        src = unparse(c.args[0].value.func.value)
+        src = unparse(fl.func.value)
         good = src in f.params
       ok = ok and good
     rs.check(ok, rule, q,
